@@ -797,6 +797,23 @@ public:
     return out;
   }
 
+  // directed cases: regressions for repaired defects that the random swarm
+  // meets only once in some 10^4 runs
+  std::vector< Json > directed(const std::string &tier) {
+    std::vector< Json > v;
+    (void)tier;
+    if (prop == "C01" && mode.empty()) {
+      const char *root = getenv("VERIF_ROOT");
+      const std::string path = std::string(root ? root : "/verif") +
+                               "/directed/C01-source-on-subgrid-edge.json";
+      try {
+        v.push_back(Json::parse_file(path));
+      } catch (...) {
+      }
+    }
+    return v;
+  }
+
   bool hash_free_class(const std::string &vclass) const {
     return vclass == "output-differs" || vclass == "uninitialised-dependent";
   }
